@@ -420,8 +420,13 @@ impl<'a> Elab<'a> {
                     return block_of(out);
                 }
                 other => {
+                    let is_loop = matches!(&other, Stmt::Expr(Expr::While(_) | Expr::Loop(_) | Expr::ForLoop(_), _));
                     let v = self.fold_stmt_multi(other);
                     out.extend(v);
+                    if is_loop {
+                        // Verus' grammar: a loop body directly followed by a block statement is ambiguous
+                        out.push(parse_quote!(();));
+                    }
                 }
             }
         }
@@ -899,6 +904,15 @@ impl<'a> Elab<'a> {
             self.unsupported("Weak::upgrade outside `if let Some(x) = ..upgrade()`", sp);
         }
 
+        // std methods without a vstd spec: `X.m(args)` → `f(&mut X, args)` (trusted helper, listed as assumption)
+        if let Some((_, to)) = self.u.methodfn.iter().find(|(a, _)| *a == method).cloned() {
+            let recv = self.fold_expr((*m.receiver).clone());
+            let args: Vec<Expr> = m.args.iter().cloned().map(|a| self.fold_expr(a)).collect();
+            let f = ident(&to);
+            let call: Expr = parse_quote!(#f(&mut #recv #(, #args)*));
+            let rf = last_field(&m.receiver).unwrap_or_default();
+            return self.wrap_op(call, &format!("{}.{}", rf, method), false);
+        }
         // R3: calls into the manager that the pool-level model must see (`X.manager.detach(..)` → `POOL.mgr_detach_(..)`)
         {
             let rl = match peel_paren(&m.receiver) {
@@ -1573,12 +1587,16 @@ impl<'a> Elab<'a> {
     fn do_opassign(&mut self, b: ExprBinary) -> Expr {
         let op = b.op.to_token_stream().to_string();
         let field = last_field(&b.left);
+        let local = path_single_ident(&b.left);
         let left = self.fold_expr(*b.left);
         let right = self.fold_expr(*b.right);
         let e = Expr::Binary(ExprBinary { attrs: vec![], left: Box::new(left), op: b.op, right: Box::new(right) });
         match field {
             Some(f) => self.wrap_op(e, &format!("{}{}", f, op), false),
-            None => e,
+            None => match local {
+                Some(l) => self.wrap_op(e, &format!("{}{}", l, op), false),
+                None => e,
+            },
         }
     }
 }
